@@ -11,7 +11,9 @@ ID = 'C09'
 LEVEL = 'proof'
 THEORIES = ['theories/L5Cover/BoxesProofs.vo',
             'theories/L5Cover/MinCoverProofs.vo',
-            'theories/L5Cover/MinCoverBounded.vo']
+            'theories/L5Cover/MinCoverBounded.vo',
+            'theories/L5Cover/MinCoverBounded3L.vo',
+            'theories/L5Cover/MinCoverBounded4.vo']
 
 HEADER = cq.HEADER + 'From Omega Require Import L5Cover.MinCover.\n'
 
@@ -34,6 +36,13 @@ def gen_instances(ctx):
     rng = ctx.rng
     out = []
     bk = lambda: rng.choice(['autoref', 'cudd'])
+    # minimised failures of earlier runs first
+    cdir = os.path.join(core.VERIF, 'corpus', ID)
+    if os.path.isdir(cdir):
+        for fn in sorted(os.listdir(cdir)):
+            if fn.endswith('.json'):
+                d = json.load(open(os.path.join(cdir, fn)))
+                out.append((d.get('kind', 'corpus'), d['instance']))
     # all non-constant functions of 3 two-valued variables (= all subsets of
     # the 2x2x2 grid), care = TRUE, plus sampled care sets
     ncare = 6 if ctx.thorough else 2
